@@ -67,7 +67,7 @@ func c15Goroutines(c *core.Ctx, la *lockA) {
 	closed := map[string]bool{}
 	for _, fn := range la.allFns {
 		for _, cs := range ssax.Calls(fn, false, ssax.ByName("builtin:close")) {
-			if id := chanIdent(cs.Instr.Common().Args[0]); id != "" {
+			if id := chanIdent(rawArgs(cs.Instr)[0]); id != "" {
 				closed[id] = true
 			}
 		}
@@ -276,7 +276,7 @@ func c15Goroutines(c *core.Ctx, la *lockA) {
 			continue
 		}
 		for i, cs := range ssax.Calls(fn, false, ssax.ByName("builtin:close")) {
-			id := chanIdent(cs.Instr.Common().Args[0])
+			id := chanIdent(rawArgs(cs.Instr)[0])
 			if !strings.HasPrefix(id, "field:") {
 				continue
 			}
